@@ -8,6 +8,9 @@ PROPS = {
         "thorough_runs": 800000,
         "quick_wall": 240,
         "thorough_wall": 2400,
+        # converting operations under a suspended get_references generator are
+        # outside 'sequences of the containers' public operations' (DESIGN 4.3)
+        "params": {"interleave_convert_p": 0.0},
         "rule": "each run draws one of six container machines (ReferenceCache over a real gtirb module, ReturnEdgeCache/make_return_cache, "
         "BlockOrdering, LinkedListNode, OffsetMapping, IdentitySet), a small random setup and a history of 3-40 public operations "
         "(with context enter/exit/raise, original-CFG mutation, ir.cfg rebinding, abandoned and suspended get_references generators as fault/"
